@@ -46,6 +46,14 @@ Definition unpad_with (u : Z -> Z -> Z -> option Z) g (q : pos) : option pos :=
 Definition unpad_c2i := unpad_with unpad_pos.     (* col2im, col2im_v2: output[:, :, pH:Hp-pH, pW:Wp-pW] *)
 Definition unpad_pw := unpad_with unpad_neg.      (* place_windows:     slice(p, -p if p else None)      *)
 
+(* the geometries of property C16: positive kernel / stride / dilation, padding >= 0, at least one window per axis *)
+Definition valid g : Prop :=
+  0 <= gN g /\ 0 <= gC g /\ 0 <= gH g /\ 0 <= gW g /\ 0 < kH g /\ 0 < kW g /\ 0 < sH g /\ 0 < sW g /\
+  0 <= pH g /\ 0 <= pW g /\ 0 < dH g /\ 0 < dW g /\ 1 <= lH g /\ 1 <= lW g.
+Definition validb g : bool :=
+  (0 <=? gN g) && (0 <=? gC g) && (0 <=? gH g) && (0 <=? gW g) && (0 <? kH g) && (0 <? kW g) && (0 <? sH g) && (0 <? sW g) &&
+  (0 <=? pH g) && (0 <=? pW g) && (0 <? dH g) && (0 <? dW g) && (1 <=? lH g) && (1 <=? lW g).
+
 (* ------------------------------------------------------------------ 1. index-based: get_im2col_indices, im2col, col2im *)
 Definition idx_i0 g := np_tile (np_repeat (arange3 0 (kH g * dH g) (dH g)) (kW g)) (gC g).
 Definition idx_i1 g := map (Z.mul (sH g)) (np_repeat (zr (lH g)) (lW g)).
